@@ -1,7 +1,10 @@
 package checks
 
 import (
+	"bytes"
 	"fmt"
+	"github.com/titpetric/vuego"
+	"sort"
 	"strings"
 
 	"golang.org/x/net/html"
@@ -24,6 +27,20 @@ type c03Case struct {
 }
 
 func (c *c03Case) Key() string { return core.KeyOf(c) }
+
+// typed part: comparisons against literals, values of every numeric kind (and none)
+var c03TypedTpls = map[string]string{
+	"eq-int":    `<i id="zero" v-if="n == 0">z</i><i id="one" v-else-if="n == 1">o</i><i id="many" v-else>m</i>`,
+	"ne-string": `<i id="open" v-if="n != 'done'">o</i><i id="done" v-else>d</i>`,
+	"lt":        `<i id="small" v-if="n < 1">s</i><i id="big" v-else>b</i>`,
+	"eq-var":    `<i id="same" v-if="n == f0">s</i><i id="diff" v-else>d</i>`,
+	"show":      `<i id="m" v-if="f0">n</i><i id="one" v-else-if="n == 1" :class="{k: n == 1}">o</i>`,
+}
+
+var c03TypedVals = map[string]any{
+	"int0": 0, "int1": 1, "int2": 2, "f0": 0.0, "f1": 1.0, "f05": 0.5, "i64_0": int64(0), "i64_1": int64(1), "u8_0": uint8(0), "u8_1": uint8(1), "i32_1": int32(1), "f32_1": float32(1),
+	"named1": vNamedInt(1), "str1": "1", "done": "done", "todo": "todo", "true": true, "false": false, "nil": nil, "missing": nil,
+}
 
 var c03TrueExprs = []string{"t", "!f", "n == 1", "s == 'x'", "t && t"}
 var c03FalseExprs = []string{"f", "!t", "n == 2", "zz", "n > 5", "f || zz"}
@@ -400,6 +417,45 @@ func (c *c03Case) Run(ctx *core.Ctx) {
 		if strings.Join(got, ",") != strings.Join(want, ",") {
 			ctx.Violation("chain", c.Placement+"/"+c.Sep, c.Members, fmt.Sprintf("tpl %q: rendered %v want %v (out %q)", tpl, got, want, clip(out, 300)))
 		}
+	case "typed":
+		// conditions that compare: the branch taken for a value does not depend on the Go types of
+		// the values the same condition was evaluated for before (compiled conditions are kept per
+		// engine) - on one long-lived engine, and within one render over a list of mixed kinds
+		ctx.NonTrivial()
+		tpl := c03TypedTpls[c.Placement]
+		first, second := c03TypedVals[c.Val], c03TypedVals[c.Reach]
+		branch := func(t vuego.Template, v any, has bool) string {
+			data := map[string]any{"f0": false}
+			if has {
+				data["n"] = v
+			}
+			var buf bytes.Buffer
+			ctx.Eval(1)
+			if err := t.New().Fill(data).RenderString(bg, &buf, tpl); err != nil {
+				return "ERR " + err.Error()
+			}
+			return strings.Join(c03IDs(buf.String()), ",")
+		}
+		long := vuego.New()
+		_ = branch(long, first, c.Val != "missing")
+		got := branch(long, second, c.Reach != "missing")
+		want := branch(vuego.New(), second, c.Reach != "missing")
+		ctx.Outcome(got)
+		if got != want {
+			ctx.Violation("chain", "typed/"+c.Placement, c.Val+"-then-"+c.Reach, fmt.Sprintf("tpl %q: after the condition was evaluated for n=%#v, n=%#v takes %q; on a new engine it takes %q", tpl, first, second, got, want))
+		}
+		// the same two values as items of one loop
+		if c.Val != "missing" && c.Reach != "missing" {
+			ltpl := `<div v-for="n in vals">` + tpl + `</div>`
+			var buf bytes.Buffer
+			ctx.Eval(1)
+			err := vuego.New().Fill(map[string]any{"vals": []any{first, second}, "f0": false}).RenderString(bg, &buf, ltpl)
+			a, b := branch(vuego.New(), first, true), want
+			loopWant := strings.Trim(a+","+b, ",")
+			if g := strings.Join(c03IDs(buf.String()), ","); err != nil || g != loopWant {
+				ctx.Violation("chain", "typed-loop/"+c.Placement, c.Val+"-then-"+c.Reach, fmt.Sprintf("tpl %q over [%#v, %#v]: takes %q (err %v), each item alone takes %q", ltpl, first, second, g, err, loopWant))
+			}
+		}
 	case "truth":
 		tv := truthByName(c.Val)
 		ctx.NonTrivial()
@@ -464,6 +520,20 @@ func init() {
 						continue
 					}
 					emit(&c03Case{Part: "truth", Val: tv.Name, Reach: r})
+				}
+			}
+			var typedNames []string
+			for k := range c03TypedVals {
+				typedNames = append(typedNames, k)
+			}
+			sort.Strings(typedNames)
+			for pl := range c03TypedTpls {
+				for _, a := range typedNames {
+					for _, b := range typedNames {
+						if a != b {
+							emit(&c03Case{Part: "typed", Placement: pl, Val: a, Reach: b})
+						}
+					}
 				}
 			}
 			opts := []string{"P", "I+", "I-", "EI+", "EI-", "E", "F-", "F+", "EL", "EIL"}
